@@ -9,6 +9,7 @@ from collections import Counter
 from fractions import Fraction
 
 from ..gen.ledger import Opts, gen_ledger, render_dsl
+from ..clidrv import ALL_YEARS_TOML
 from ..mcpdrv import Session, call, check_history
 from ..model import fx as fxm
 from ..probe import probe
@@ -23,6 +24,7 @@ TOOLS = ["parse_transactions", "calculate_report", "explain_matching", "get_fx_r
 def plan(tier, seed):
     k = 24 if tier == "quick" else 500
     shards = [{"kind": "sessions", "seed": seed, "shard": i, "n": 3} for i in range(k)]
+    shards += [{"kind": "embedded", "seed": seed, "shard": i, "n": 3} for i in range(8 if tier == "quick" else 120)]
     shards += [{"kind": "envelope", "seed": seed, "shard": i, "n": 1} for i in range(2 if tier == "quick" else 20)]
     return shards
 
@@ -542,6 +544,95 @@ def run_sessions(desc):
     return {"evaluations": cnt["requests"], "nontrivial_hashes": hashes, "counters": cnt, "violations": viols[:30], "samples": samples}
 
 
+def run_embedded(desc):
+    """Sessions under the embedded exemption table (no config file), as users run the server. The ledger pool reaches
+    outside the table, so calculate_report without a year filter fails for some ledgers and a year filter decides for
+    others. Judged: exactly-once history; pipelined answers == answers of a second server given the same requests one at
+    a time in another order (so an answer depends on nothing but its arguments - not even the process); acceptance and,
+    when accepted, tax years and holdings == the library under the embedded table."""
+    rng = rng_for(PROP, desc["seed"], "embedded", desc["shard"])
+    cnt, viols, hashes, samples = Counter(), [], set(), []
+    for _ in range(desc["n"]):
+        pool = []
+        for _p in range(rng.randint(2, 3)):
+            lo = rng.choice([2008, 2009, 2010, 2012, 2013, 2022, 2023])
+            opts = Opts(capital=False, splits=False, n_sec=(1, 2), steps=(6, 12), long_gaps_p=0.7,
+                        start=(dt.date(lo, 1, 1), dt.date(lo + 1, 1, 1)), last_date=dt.date(2031, 3, 1))
+            t_ = gen_ledger(rng, opts)[0]
+            pool.append({"txs": t_, "dsl": render_dsl(t_)})
+        reqs = []
+        for i in range(rng.randint(6, 30)):
+            pl = rng.choice(pool)
+            years = sorted({tax_year_of(pdate(x["date"])) for x in pl["txs"]})
+            if rng.random() < 0.6:
+                yf = rng.choice(years + [None, None, None]) if rng.random() < 0.6 else None
+                args = {"transactions": pl["dsl"]}
+                if yf is not None:
+                    args["year"] = yf
+                reqs.append((call(f"e{i}", "calculate_report", args), {"class": "calculate_report", "txs": pl["txs"], "year": yf}))
+            else:
+                sells = [x for x in pl["txs"] if x["kind"] == "SELL"]
+                if not sells:
+                    continue
+                s_ = rng.choice(sells)
+                reqs.append((call(f"e{i}", "explain_matching", {"transactions": pl["dsl"], "disposal_date": s_["date"],
+                                                              "ticker": s_["ticker"]}), {"class": "explain_matching"}))
+        if not reqs:
+            continue
+        a = Session(None)
+        a.send([r for r, _ in reqs])
+        a.wait_for([r["id"] for r, _ in reqs], 60)
+        aend = a.finish()
+        av, _st, aresp = check_history(a, aend)
+        order = list(range(len(reqs)))
+        rng.shuffle(order)
+        b = Session(None)
+        for j in order:
+            b.send([reqs[j][0]])
+            b.wait_for([reqs[j][0]["id"]], 30)
+        bend = b.finish()
+        bv, _st2, bresp = check_history(b, bend)
+        cnt["embedded_sessions"] += 1
+        cnt["requests"] += 2 * len(reqs)
+        hashes.add(sha([r for r, _ in reqs])[:16])
+        sess_case = {"op": "mcp-session", "requests": [r for r, _ in reqs], "config": "embedded"}
+        for name, detail in av:
+            viols.append({"clause": name, "signature": name, "detail": detail, "case": sess_case})
+        for name, detail in bv:
+            viols.append({"clause": name, "signature": name + ":sequential-reference", "detail": detail, "case": sess_case})
+        for r, meta in reqs:
+            k = Session.idkey(r["id"])
+            x, y = aresp.get(k), bresp.get(k)
+            if x is None or y is None:
+                continue
+            if normalise(x) != normalise(y):
+                viols.append({"clause": "answer-depends-on-history-or-schedule",
+                              "signature": "answer-depends-on-history-or-schedule:embedded-table:" + meta["class"],
+                              "detail": f"{k}: {json.dumps(normalise(x))[:200]} | second server: {json.dumps(normalise(y))[:200]}",
+                              "case": {"op": "mcp-request", "request": r, "config": "embedded", "repeat": 8}})
+            else:
+                cnt["embedded_answers_equal_reference"] += 1
+            if meta["class"] == "calculate_report":
+                o = probe().one(dict(lc.calc_case(meta["txs"], year=meta.get("year"), fx="bundled", exemptions="embedded"),
+                                     outputs=["json"]))
+                txt = result_text(x)
+                if ("ok" in o) != (txt is not None):
+                    viols.append({"clause": "calculate-vs-library-acceptance", "signature": "calculate-vs-library-acceptance:embedded-table",
+                                  "detail": f"{k}: library {'accepts' if 'ok' in o else 'refuses: ' + o.get('err', {}).get('message', '')[:120]}, "
+                                            f"server {'answers a report' if txt is not None else 'answers an error'}",
+                                  "case": {"op": "mcp-request", "request": r, "config": "embedded"}})
+                elif txt is not None:
+                    cnt["embedded_reports_equal_library"] += 1
+                    got, want = json.loads(txt), json.loads(o["ok"]["json"])
+                    if got.get("tax_years") != want["tax_years"] or got.get("holdings") != want["holdings"]:
+                        cnt["embedded_reports_equal_library"] -= 1
+                        viols.append({"clause": "calculate-differs-from-report-json", "signature": "calculate-differs-from-report-json:embedded-table",
+                                      "detail": k, "case": {"op": "mcp-request", "request": r, "config": "embedded"}})
+                else:
+                    cnt["embedded_unconfigured_year_errors"] += 1
+    return {"evaluations": cnt["requests"], "nontrivial_hashes": hashes, "counters": cnt, "violations": viols[:30], "samples": samples}
+
+
 def run_envelope(desc):
     """Labelled extended class: envelope-level garbage (unknown JSON-RPC method, non-JSON line, overflowing
     magnitudes). The server must still answer everything else and stay up until stdin closes."""
@@ -576,19 +667,44 @@ def run_envelope(desc):
 
 
 def run_shard(desc):
-    return run_sessions(desc) if desc["kind"] == "sessions" else run_envelope(desc)
+    return {"sessions": run_sessions, "embedded": run_embedded, "envelope": run_envelope}[desc["kind"]](desc)
 
 
 def replay(case):
+    cfg = None if case.get("config") == "embedded" else ALL_YEARS_TOML
     if case.get("op") == "mcp-request":
-        s = Session()
         r = case["request"]
-        s.send([r])
-        s.wait_for([r["id"]], 60)
+        out, answers, last = [], [], None
+        for _i in range(int(case.get("repeat", 1))):     # fresh server processes: an answer may depend on nothing else
+            s = Session(cfg)
+            s.send([r])
+            s.wait_for([r["id"]], 60)
+            e = s.finish()
+            v, st, resp = check_history(s, e)
+            out += [{"clause": n, "signature": n, "detail": d_} for n, d_ in v]
+            answers.append(json.dumps(normalise(resp.get(Session.idkey(r["id"]), {})), sort_keys=True))
+            last = {"responses": resp, "end": e}
+        if len(set(answers)) > 1:
+            out.append({"clause": "answer-depends-on-history-or-schedule",
+                        "signature": "answer-depends-on-history-or-schedule:embedded-table:calculate_report"
+                        if case.get("config") == "embedded" else "answer-differs-from-fresh-process",
+                        "detail": f"{len(set(answers))} different answers from {len(answers)} fresh servers: "
+                                  + " | ".join(sorted(set(a_[:160] for a_ in answers)))})
+        return out, last
+    if case.get("op") == "mcp-session":
+        # the recorded requests again, pipelined in bursts of 16 with a sentinel ping after each, on a fresh server
+        s = Session(cfg)
+        reqs = case["requests"]
+        ids = []
+        for i in range(0, len(reqs), 16):
+            burst = list(reqs[i:i + 16]) + [{"jsonrpc": "2.0", "id": f"sentinel-{i}", "method": "ping"}]
+            ids += [r["id"] for r in burst if "id" in r]
+            s.send(burst)
+        s.wait_for(ids, 60)
         e = s.finish()
         v, st, resp = check_history(s, e)
-        return [{"clause": n, "signature": n, "detail": d_} for n, d_ in v], {"responses": resp, "end": e}
-    return [], {"note": "session replays: re-run the shard"}
+        return [{"clause": n, "signature": n, "detail": d_} for n, d_ in v], {"stats": st, "end": e}
+    return [], {"note": "envelope-class cases: re-run the shard"}
 
 
 THRESHOLDS = {"sessions": 30, "requests": 1500, "out_of_order_completions": 1, "answers_equal_reference": 1000,
